@@ -5,10 +5,14 @@
   Protocol (one record per line, space separated, numbers are exact rationals `p/q`):
     case <id>
     clock k=3 dur=20 win=veitch|at|ss T=20 st=2     the proposal's clock (fresh: _nsteps = 0)
-    fam veitch xi=<q> deltas=<csv> std=<csv>
-    fam ss diag=<0|1> xi=<q> cap=<q|inf> vals=<csv>
+    fam veitch xi=<q> deltas=<csv> std=<csv|default>   `default`: the model derives the documented
+                             default initial widths (1 - xi) * 0.09 * deltas itself
+    fam ss diag=<0|1> xi=<q> cap=<q|inf> vals=<csv> [cov=<csv>] [maxcov=<q>]
+                             with the configured `cov` / `max_cov` given, the oracle square roots are
+                             checked: vals^2 = cov, cap^2 = maxcov (diagonal); vals = cov, cap = maxcov (full)
     fam at xi=<q> comp=<0|1> diag=<0|1> n=<n>        (log λ = 0, mean = 0, unit_cov = 1 / I)
-    fam eig xi=<q> tol=<q> mu=<csv> cov=<row;row;..> eig=<csv>
+    fam eig xi=<q> tol=<q> mu=<csv> cov=<row;row;..> eig=<csv>   (eig: oracle, its sum is checked
+                             against the trace of the configured covariance)
     fam vmf xi=<q> lk=<q> kappa=<q> norm=<q>
     gain <dk> <g> [<c>]      oracle gain table entry; with the decay constant `c` given the
                              entry is checked against its defining formula:
@@ -109,25 +113,44 @@ def parseClock (toks : List String) : Option PropCfg := do
          T := ← kvNat toks "T", start0 := ← kvNat toks "st"
          comp := false, savesNsteps := true }
 
-def parseFam (cfg : PropCfg) (toks : List String) : Option Mach := do
+def parseFam (cfg : PropCfg) (toks : List String) : Except String Mach := do
   let clock := PropSt.fresh cfg
+  let need {β : Type} (o : Option β) (what : String) : Except String β :=
+    match o with
+    | some v => pure v
+    | none => throw s!"bad-op fam: {what}"
   match toks with
   | "veitch" :: rest =>
-    let deltas ← kvCsv rest "deltas"
-    let std ← kvCsv rest "std"
+    let deltas ← need (kvCsv rest "deltas") "deltas"
     let n := deltas.length
-    pure (.veitch n (← kvRat rest "xi") (← mkVec n deltas) { clock := clock, num := ← mkVec n std })
+    let xi ← need (kvRat rest "xi") "xi"
+    let dv ← need (mkVec n deltas) "deltas"
+    let std ← if kv rest "std" == some "default" then pure (veitchDefaultStd xi dv)
+      else need ((kvCsv rest "std").bind (mkVec n)) "std"
+    pure (.veitch n xi dv { clock := clock, num := std })
   | "ss" :: rest =>
-    let vals ← kvCsv rest "vals"
-    let cap ← (kv rest "cap").bind fun s => if s = "inf" then some none else (parseRat s).map some
-    pure (.ss vals.length (← kvBool rest "diag") (← kvRat rest "xi") cap
-      { clock := clock, num := { nAcc := 0, vals := ← mkVec vals.length vals } })
+    let vals ← need (kvCsv rest "vals") "vals"
+    let diag ← need (kvBool rest "diag") "diag"
+    let cap ← need ((kv rest "cap").bind fun s => if s = "inf" then some none else (parseRat s).map some) "cap"
+    let sq : Rat → Rat := fun v => if diag then v * v else v
+    match kvCsv rest "cov" with
+    | some cov =>
+      if !(cov.length = vals.length && (List.zip vals cov).all fun (v, c) => close (sq v) c) then
+        throw "bad-oracle ss: the initial scale is not the (square root of the) configured covariance"
+    | none => pure ()
+    match cap, kvRat rest "maxcov" with
+    | some cp, some mc =>
+      if !(close (sq cp) mc) then throw "bad-oracle ss: the cap is not the (square root of the) configured max_cov"
+    | _, _ => pure ()
+    let vv ← need (mkVec vals.length vals) "vals"
+    pure (.ss vals.length diag (← need (kvRat rest "xi") "xi") cap
+      { clock := clock, num := { nAcc := 0, vals := vv } })
   | "at" :: rest =>
-    let n ← kvNat rest "n"
-    let comp ← kvBool rest "comp"
-    let diag ← kvBool rest "diag"
+    let n ← need (kvNat rest "n") "n"
+    let comp ← need (kvBool rest "comp") "comp"
+    let diag ← need (kvBool rest "diag") "diag"
     let zero : Vector Rat n := Vector.ofFn fun _ => 0
-    pure (.at n (← kvRat rest "xi")
+    pure (.at n (← need (kvRat rest "xi") "xi")
       { clock := clock
         num := { logLam := if comp then .comp zero else .glob 0
                  mean := zero
@@ -135,18 +158,24 @@ def parseFam (cfg : PropCfg) (toks : List String) : Option Mach := do
                          else .full (Vector.ofFn fun i : Fin n => Vector.ofFn fun j : Fin n =>
                            if i = j then 1 else 0) } })
   | "eig" :: rest =>
-    let mu ← kvCsv rest "mu"
+    let mu ← need (kvCsv rest "mu") "mu"
     let n := mu.length
-    let cov ← (kv rest "cov").bind parseMat
-    pure (.eig n (← kvRat rest "xi") (← kvRat rest "tol")
+    let cov ← need ((kv rest "cov").bind parseMat) "cov"
+    let eig ← need (kvCsv rest "eig") "eig"
+    let tr := (List.range n).foldl (fun s i => s + (cov.getD i []).getD i 0) (0 : Rat)
+    let sw := eig.foldl (· + ·) (0 : Rat)
+    if !(absR (tr - sw) ≤ (1 : Rat) / 100000000 * (absR tr + absR sw)) then
+      throw s!"bad-oracle initial eigenvalues: sum {showRat sw} vs trace {showRat tr} of the configured covariance"
+    pure (.eig n (← need (kvRat rest "xi") "xi") (← need (kvRat rest "tol") "tol")
       { clock := clock
-        num := { cov := ← mkMat n cov, mu := ← mkVec n mu, logLam := 0
-                 eigvals := ← mkVec n (← kvCsv rest "eig") } })
+        num := { cov := ← need (mkMat n cov) "cov", mu := ← need (mkVec n mu) "mu", logLam := 0
+                 eigvals := ← need (mkVec n eig) "eig" } })
   | "vmf" :: rest =>
-    pure (.vmf (← kvRat rest "xi")
+    pure (.vmf (← need (kvRat rest "xi") "xi")
       { clock := clock
-        num := { logKappa := ← kvRat rest "lk", kappa := ← kvRat rest "kappa", norm := ← kvRat rest "norm" } })
-  | _ => none
+        num := { logKappa := ← need (kvRat rest "lk") "lk", kappa := ← need (kvRat rest "kappa") "kappa"
+                 norm := ← need (kvRat rest "norm") "norm" } })
+  | _ => throw "bad-op fam"
 
 /-! ## oracle checks (the defining formulas, as far as they are algebraic) -/
 
@@ -287,9 +316,12 @@ def handleLine (st : DState) (line : String) : DState × List String :=
       | some c => ({ st with cfg := some c }, [])
       | none => ({ st with dead := true }, [s!"bad-op {line}"])
     | "fam" :: rest =>
-      match st.cfg.bind (fun c => parseFam c rest) with
-      | some m => ({ st with mach := some m }, [])
+      match st.cfg with
       | none => ({ st with dead := true }, [s!"bad-op {line}"])
+      | some c =>
+        match parseFam c rest with
+        | .ok m => ({ st with mach := some m }, [])
+        | .error e => ({ st with dead := true }, [e])
     | ["gain", dk, g] =>
       match dk.toInt?, parseRat g, st.cfg with
       | some dk, some g, some cfg =>
